@@ -314,14 +314,18 @@ Proof.
   - injection E as <-. unfold Inv_tm, off_ok, SECS_PER_DAY. cbn. lia.
 Qed.
 
-Lemma nanos_to_days_nanos_inv t d n : nanos_to_days_nanos t = Ok (d, n) -> in_i32 d /\ 0 <= n < NANOS_PER_DAY.
+Lemma nanos_to_days_nanos_inv t d n : nanos_to_days_nanos t = Ok (d, n) -> in_i32 d /\ 0 <= n < NANOS_PER_DAY /\ d * NANOS_PER_DAY + n = t.
 Proof.
   intros E. assert (C : inst_in_range t \/ ~ inst_in_range t) by (unfold inst_in_range; lia). destruct C as [C | C].
-  - destruct (split_ok t C) as (E' & A & B & _). rewrite E' in E. injection E as <- <-. unfold D in *. tauto.
+  - destruct (split_ok t C) as (E' & A & B & S). rewrite E' in E. injection E as <- <-. unfold D in *. tauto.
   - destruct (nanos_to_days_nanos_err t C) as [e E']. congruence.
 Qed.
 
-Theorem dt_parse_valid now s fmt r : dt_parse now s fmt = Ok r -> Inv_dt r.
+Definition Valid_dt (v : DT) : Prop := Inv_dt v /\ inst_in_range (local_instant v).
+Lemma day_in_range d n : in_i32 d -> 0 <= n < NANOS_PER_DAY -> inst_in_range (d * NANOS_PER_DAY + n).
+Proof. unfold in_i32, inst_in_range, MIN_I, MAX_I. unfold_consts. lia. Qed.
+
+Theorem dt_parse_valid now s fmt r : dt_parse now s fmt = Ok r -> Valid_dt r.
 Proof.
   unfold dt_parse. intros E. destruct (parse_loop _ _ _ _ _) as [[d x]| |] eqn:L; cbn [bind] in E; try discriminate.
   apply parse_loop_nn in L as [Hd Hx]; [|apply pd0_nn|apply pt0_nn]. apply time_nanos_nn in Hx.
@@ -333,8 +337,12 @@ Proof.
   - destruct (offset_from_seconds off) as [o| |] eqn:O; cbn [bind] in E; try discriminate.
     apply offset_from_seconds_ok in O as [-> O].
     destruct (try_remove_offset_from_dn days (time_nanos x) off) as [[dd nn]| |] eqn:T; cbn [bind] in E; try discriminate.
-    injection E as <-. apply nanos_to_days_nanos_inv in T. unfold Inv_dt. cbn [dt_days dt_nanos dt_off]. tauto.
-  - injection E as <-. unfold Inv_dt, off_ok, SECS_PER_DAY. cbn [dt_days dt_nanos dt_off]. split; [exact Ed|]. split; lia.
+    injection E as <-. apply nanos_to_days_nanos_inv in T as (T1 & T2 & T3). rewrite days_nanos_to_nanos_spec in T3.
+    split; [unfold Inv_dt; cbn [dt_days dt_nanos dt_off]; tauto|].
+    unfold local_instant, instant. cbn [dt_days dt_nanos dt_off]. replace (dd * NANOS_PER_DAY + nn + off * NANOS_PER_SEC) with (days * NANOS_PER_DAY + time_nanos x) by lia.
+    apply day_in_range; [exact Ed | lia].
+  - injection E as <-. split; [unfold Inv_dt, off_ok, SECS_PER_DAY; cbn [dt_days dt_nanos dt_off]; split; [exact Ed|]; split; lia|].
+    unfold local_instant, instant. cbn [dt_days dt_nanos dt_off]. rewrite Z.mul_0_l, Z.add_0_r. apply day_in_range; [exact Ed | lia].
 Qed.
 
 (* ---------- RFC 3339 ---------- *)
@@ -427,7 +435,7 @@ Proof.
   replace ((a - 1) * b) with (a * b - b) in * by ring. lia.
 Qed.
 
-Theorem rfc_parse_total s : npr (dt_parse_rfc3339 s) /\ (forall r, dt_parse_rfc3339 s = Ok r -> Inv_dt r).
+Theorem rfc_parse_total s : npr (dt_parse_rfc3339 s) /\ (forall r, dt_parse_rfc3339 s = Ok r -> Valid_dt r).
 Proof.
   unfold dt_parse_rfc3339.
   destruct (byte_len s <? 20); [split; [npr_auto | discriminate]|].
@@ -480,5 +488,98 @@ Proof.
   { subst v. unfold Inv_dt, in_i32, off_ok. cbn [dt_days dt_nanos dt_off]. revert Hrd Et Hn. unfold_consts. lia. }
   assert (Rv : inst_in_range (instant v - o * NANOS_PER_SEC)).
   { subst v. unfold inst_in_range, instant, MIN_I, MAX_I, off_ok in *. cbn [dt_days dt_nanos]. revert Hrd Et Hn Ho. unfold_consts. lia. }
-  destruct (c10_as_offset v o Iv Ho Rv) as (v' & E' & _ & _ & _ & I'). rewrite E'. split; [npr_auto|]. intros r E. injection E as <-. exact I'.
+  destruct (c10_as_offset v o Iv Ho Rv) as (v' & E' & _ & _ & L' & I'). rewrite E'. split; [npr_auto|]. intros r E. injection E as <-.
+  split; [exact I'|]. rewrite L'. apply inv_in_range; exact Iv.
+Qed.
+
+(* ---------- format() returns a String: the model is Ok for every valid value and every pattern ---------- *)
+Definition okr {A} (r : res A) : Prop := exists a, r = Ok a.
+Lemma okr_ok {A} (a : A) : okr (Ok a). Proof. eexists; reflexivity. Qed.
+Lemma okr_bind {A B} (r : res A) (f : A -> res B) : okr r -> (forall a, r = Ok a -> okr (f a)) -> okr (bind r f).
+Proof. intros [a ->] H. cbn [bind]. apply H. reflexivity. Qed.
+
+Lemma nth_name_ok tbl i : 0 <= i < Z.of_nat (length tbl) -> okr (nth_name tbl i).
+Proof.
+  intros H. unfold nth_name. destruct (nth_error tbl (Z.to_nat i)) eqn:E.
+  - destruct (Z.leb_spec 0 i); [apply okr_ok | lia].
+  - apply nth_error_None in E. lia.
+Qed.
+
+Lemma format_month_ok len days : okr (format_month len days).
+Proof.
+  unfold format_month. destruct (days_to_date_rd days) as [V _]. destruct (days_to_date days) as [[y m] d]. destruct V as (_ & Hm & _).
+  zcases len; try apply okr_ok; apply nth_name_ok; cbn; lia.
+Qed.
+Lemma format_wday_ok len days : okr (format_wday len days).
+Proof.
+  unfold format_wday. pose proof (wd_step days) as [_ W].
+  zcases len; try apply okr_ok; apply nth_name_ok; cbn; lia.
+Qed.
+Lemma days_to_doy_ok days : okr (days_to_doy days).
+Proof.
+  unfold days_to_doy. destruct (days_to_date_rd days) as [V _]. destruct (days_to_date days) as [[y m] d]. destruct V as (_ & Hm & _).
+  unfold year_month_to_doy. destruct (is_leap_year y); month_split m Hm; cbn; apply okr_ok.
+Qed.
+Lemma format_date_part_ok chars days : okr (format_date_part chars days).
+Proof.
+  unfold format_date_part. cbv zeta.
+  repeat match goal with |- okr (if ?b then _ else _) => destruct b end; try apply okr_ok.
+  - destruct (days_to_date days) as [[y m] d]. destruct (Z.of_nat (length chars)) as [|[ [] | [] | ]|]; apply okr_ok.
+  - destruct (days_to_date days) as [[y m] d]. apply okr_ok.
+  - apply format_month_ok.
+  - destruct (days_to_date days) as [[y m] d]. apply okr_ok.
+  - apply okr_bind; [apply days_to_doy_ok | intros; apply okr_ok].
+  - apply format_wday_ok.
+Qed.
+
+Lemma format_period_ok nanos len sep : 1 <= len <= 5 -> okr (format_period nanos len sep).
+Proof.
+  intros H. unfold format_period. cbv zeta. generalize (wrap_u32 (nanos / NANOS_PER_SEC) mod SECS_PER_DAY). intros time.
+  assert (R : exists a b c d, nth_error PERIOD_FORMATS (Z.to_nat (len - 1)) = Some [a; b; c; d]).
+  { assert (C : len = 1 \/ len = 2 \/ len = 3 \/ len = 4 \/ len = 5) by lia.
+    destruct C as [-> | [-> | [-> | [-> | ->]]]]; vm_compute; do 4 eexists; reflexivity. }
+  destruct R as (a & b & c & d & ->). destruct (Z.leb_spec len 0); [lia|]. cbn [nth_error].
+  repeat match goal with |- okr (if ?b then _ else _) => destruct b end; apply okr_ok.
+Qed.
+Lemma first_char_len chars c : first_char chars = c -> 0 <= c -> 1 <= Z.of_nat (length chars).
+Proof. destruct chars; cbn [first_char length]; lia. Qed.
+Lemma get_length_35 len : 1 <= len -> 1 <= get_length len 3 5 <= 5.
+Proof. unfold get_length. destruct (Z.ltb_spec 5 len); lia. Qed.
+
+Lemma format_time_part_ok chars nanos off : okr (format_time_part chars nanos off).
+Proof.
+  unfold format_time_part. cbv zeta. destruct (nanos_to_time nanos) as [[h m] s].
+  destruct (Z.eqb_spec (first_char chars) 97) as [E|_].
+  { apply format_period_ok, get_length_35. eapply first_char_len; [exact E | lia]. }
+  destruct (Z.eqb_spec (first_char chars) 98) as [E|_].
+  { apply format_period_ok, get_length_35. eapply first_char_len; [exact E | lia]. }
+  repeat match goal with |- okr (if ?b then _ else _) => destruct b end; apply okr_ok.
+Qed.
+Lemma format_part_ok chars days nanos off : okr (format_part chars days nanos off).
+Proof.
+  unfold format_part. cbv zeta. destruct (is_date_symbol _); [apply format_date_part_ok|].
+  destruct (is_time_symbol _); [apply format_time_part_ok | apply okr_ok].
+Qed.
+Lemma concat_res_ok l : (forall r, In r l -> okr r) -> okr (concat_res l).
+Proof.
+  induction l as [|r tl IH]; intros H; cbn [concat_res]; [apply okr_ok|].
+  apply okr_bind; [apply H; left; reflexivity|]. intros a _. apply okr_bind; [apply IH; intros; apply H; right; assumption|]. intros; apply okr_ok.
+Qed.
+Lemma render_all_ok f parts : (forall p, okr (f p)) -> okr (concat_res (map (render_part f) parts)).
+Proof.
+  intros Hf. apply concat_res_ok. intros r Hr. apply in_map_iff in Hr as (p & <- & _). unfold render_part.
+  destruct (_ =? NUL); [apply okr_ok|]. destruct (_ =? APOS); [apply okr_ok | apply Hf].
+Qed.
+
+Theorem date_format_total days fmt : okr (date_format days fmt).
+Proof. unfold date_format. apply render_all_ok. intros; apply format_date_part_ok. Qed.
+Theorem time_format_total t fmt : okr (time_format t fmt).
+Proof. unfold time_format. cbv zeta. apply render_all_ok. intros; apply format_time_part_ok. Qed.
+(* a DateTime is valid when its instant and its local reading are both representable (what every constructor and setter guarantees: C10) *)
+Theorem dt_format_total v fmt : Valid_dt v -> okr (dt_format v fmt).
+Proof.
+  intros [I L]. unfold dt_format. cbv zeta. apply okr_bind.
+  - unfold add_offset_to_dn. rewrite (days_nanos_to_nanos_spec (dt_days v) (dt_nanos v)).
+    destruct (split_ok _ L) as [E _]. unfold local_instant, instant in E. rewrite E. apply okr_ok.
+  - intros [days nanos] _. apply render_all_ok. intros; apply format_part_ok.
 Qed.
